@@ -754,6 +754,13 @@ fn abort_error(tcb: &Tcb) -> Option<Error> {
 
 fn abort_with(k: &mut Kernel, fd: Fd, reason: AbortReason) {
     let st = k.lookup_mut(fd).unwrap();
+    // A child still handshaking has no owner: no shim handle, not yet on
+    // the listener's ready queue. Nobody will ever close it, so reap it
+    // here.
+    let unowned_child = st
+        .tcb
+        .as_ref()
+        .is_some_and(|t| t.state == TcpState::SynReceived);
     if let Some(tcb) = st.tcb.as_mut() {
         tcb.state = TcpState::Closed;
         match reason {
@@ -768,6 +775,9 @@ fn abort_with(k: &mut Kernel, fd: Fd, reason: AbortReason) {
     }
     st.wake_read();
     st.wake_write();
+    if unowned_child {
+        k.sockets.remove(fd);
+    }
 }
 
 /// Find a listening socket bound to `local` (or the matching wildcard).
